@@ -767,3 +767,22 @@ for _n in range(4, 16):
         inline=RTP_INLINE,
         note=f'CSRC count {_n} (with c18_codecs.py: every value 0..15 of the 4-bit count field)',
     )
+
+
+# -- URL elements: text known by its UTF-8 encoding (pyvc.ext_c18.Utf8Str) -------------------------------------------
+from pyvc.ext_c18 import utf8_valid  # noqa: E402
+
+model('pyvc.ext_c18:Utf8Str', fields={'b': Bytes}, build=lambda fields, builder: bytes(fields['b']).decode('utf-8', errors='replace'))
+
+
+def lemma_sdp_url(value):
+    e = DE.url(value)
+    b = bytes(e)
+    assert b == S.var_header(S.URL, len(value.encode('utf-8'))) + value.encode('utf-8')
+    g = sdp_reparse(e, b)
+    assert g.value == value
+
+
+lemma('sdp_url_roundtrip', lemma_sdp_url, prop='C18', params=dict(value=Inst('pyvc.ext_c18:Utf8Str')),
+      requires=lambda value: [utf8_valid(value.encode('utf-8')), len(value.encode('utf-8')) <= 0xFFFFFFFF], inline=SDP_RT_INLINE + ['Utf8Str.*'],
+      note='the URL is a str known only by its UTF-8 encoding (injective): str.encode / bytes.decode are modelled as inverse on valid UTF-8')
